@@ -101,5 +101,7 @@ func runStreamFamily(family string, sc *streamScenario, rec *recorder, opt strin
 		runDemux(sc, rec)
 	case "pair":
 		runPair(sc, rec)
+	case "merge":
+		runMerge(sc, sc.Variants, rec)
 	}
 }
